@@ -102,9 +102,23 @@ NAMESPACES: typing.Dict[str, typing.Dict[str, typing.Any]] = {
         "lookup": {"z": {"z/B.1.0.dsdl": "uint8 v\n" + _S, "z/y/Struct_.1.0.dsdl": "int8 v\n" + _S}},
         "deps": {"x.A.1.0": ["x.y.B.1.0"], "x.y.B.1.0": []},  # generated types only (z.* is looked up, never generated)
     },
+    # sibling types whose fields have the SAME names but different types: variable-length arrays of different
+    # capacity / element type, fixed array vs variable-length array, different primitive widths, composite vs primitive
+    "same": {
+        "root": "x",
+        "files": {
+            "x/Log.1.0.dsdl": "uint8[<=10] data\nuint16 value\nx.y.Inner.1.0 item\nuint8[4] fixed\n" + _S,
+            "x/Packet.1.0.dsdl": "uint8[<=200] data\nuint32 value\nuint8 item\nuint8[<=4] fixed\n" + _S,
+            "x/y/Inner.1.0.dsdl": "uint8 v\n" + _S,
+            "x/y/Packet.1.0.dsdl": "float32[<=3] data\nbool value\n" + _S,
+        },
+        "deps": {"x.Log.1.0": ["x.y.Inner.1.0"], "x.Packet.1.0": [], "x.y.Inner.1.0": [], "x.y.Packet.1.0": []},
+    },
 }
+NS_DEEP = ["fan", "chain", "twin_a", "twin_b", "xroot"]  # namespaces of the depth >= 2 alphabets
 LANG_LIST = ["c", "cpp", "py"]
-TPLS = ["builtin", "user"]
+CPP_STDS = ["c++17", "c++17-pmr", "cetl++14-17", "c++20"]  # non-default --language-standard flavours (default: c++14)
+TPLS = ["builtin", "user"]  # + "userx" (unique names requested through ANOTHER language's ln.<lang>.* filter) in family X
 PPS = ["none", "limit", "trim"]
 NAMESPACE_FILE_LANGS = ("py",)
 
@@ -117,6 +131,24 @@ _USER_TEMPLATE = {
     "{% for n in T | imports %}import {{ n }}\n{% endfor %}# end \t \n\n\n",
 }
 _USER_TEMPLATE["cpp"] = _USER_TEMPLATE["c"]
+
+
+def _userx(own: str, others: typing.Sequence[str], comment: str) -> str:
+    """A user template that asks OTHER languages' filters (ln.<lang>.to_template_unique_name) for template-unique names,
+    with the same base tokens in every file, next to the target language's own filter."""
+    cells = " ".join("{{ 'h' | ln.%s.to_template_unique_name }} {{ a.name | ln.%s.to_template_unique_name }}" % (o, o) for o in others)
+    tail = " ".join("{{ 'h' | ln.%s.to_template_unique_name }}" % o for o in others)
+    return (
+        comment + " {{ T.full_name }}\n{% for a in T.attributes %}" + comment + " " + cells
+        + " {{ 'h' | to_template_unique_name }}\n{% endfor %}" + comment + " " + tail + " {{ 'h' | to_template_unique_name }}\n"
+    )
+
+
+_USERX_TEMPLATE = {
+    "c": _userx("c", ["cpp", "py"], "//"),
+    "cpp": _userx("cpp", ["c", "py"], "//"),
+    "py": _userx("py", ["c", "cpp"], "#"),
+}
 
 
 def closure(ns: str, t: str) -> typing.List[str]:
@@ -162,6 +194,7 @@ def event(
     audit: bool = False,
     support: bool = False,
     reuse_gen: bool = False,
+    std: typing.Optional[str] = None,
 ) -> dict:
     """omit/audit = the omit_serialization_support / embed_auditing_info arguments of generate_all(); support = a
     SupportGenerator is created next to the DSDLCodeGenerator (create_default_generators, shared post-processor list) and
@@ -180,6 +213,7 @@ def event(
         "audit": bool(audit),
         "support": bool(support),
         "reuse_gen": bool(reuse_gen),
+        "std": std,  # language option `std` (--language-standard), None = the language's default
     }
 
 
@@ -201,7 +235,7 @@ def ev_id(ev: dict) -> str:
         dev=";".join(":".join(map(str, d)) for d in ev["dev"]),
         r="reuse" if ev["reuse"] else "",
     )
-    return base + ("/" + _flags(ev) if flagged(ev) else "")
+    return base + ("/" + _flags(ev) if flagged(ev) else "") + ("/std=" + ev["std"] if ev.get("std") else "")
 
 
 def plain(ev: dict) -> dict:
@@ -210,13 +244,16 @@ def plain(ev: dict) -> dict:
 
 
 def ref_event(ev: dict, order: typing.Sequence[str]) -> dict:
-    return event(ev["ns"], order, ev["lang"], ev["tpl"], ev["pps"], omit=ev["omit"], audit=ev["audit"], support=ev["support"])
+    return event(
+        ev["ns"], order, ev["lang"], ev["tpl"], ev["pps"], omit=ev["omit"], audit=ev["audit"], support=ev["support"], std=ev.get("std")
+    )
 
 
 def ref_key(rev: dict) -> str:
     """Key of a reference event; types in GENERATION order (t first for closure references, sorted for set references)."""
     f = _flags(rev, ("omit", "audit", "support"))
-    return f"{rev['ns']}|{rev['lang']}|{rev['tpl']}|{rev['pps']}|{','.join(rev['S'])}" + ("|" + f if f else "")
+    lang = rev["lang"] + (":" + rev["std"] if rev.get("std") else "")
+    return f"{rev['ns']}|{lang}|{rev['tpl']}|{rev['pps']}|{','.join(rev['S'])}" + ("|" + f if f else "")
 
 
 class Layout:
@@ -238,10 +275,12 @@ class Layout:
                     p = self.inputs / name / "lookup" / rel
                     p.parent.mkdir(parents=True, exist_ok=True)
                     p.write_text(text, encoding="utf-8")
-        for lang, text in _USER_TEMPLATE.items():
-            (self.tpl / lang).mkdir(parents=True, exist_ok=True)
-            with open(self.tpl / lang / "Any.j2", "w", encoding="utf-8", newline="") as f:
-                f.write(text)
+        for kind, table in (("user", _USER_TEMPLATE), ("userx", _USERX_TEMPLATE)):
+            for lang, text in table.items():
+                d = self.tpl / (lang if kind == "user" else lang + "_x")
+                d.mkdir(parents=True, exist_ok=True)
+                with open(d / "Any.j2", "w", encoding="utf-8", newline="") as f:
+                    f.write(text)
         self.refs.mkdir(parents=True, exist_ok=True)
         self.out.mkdir(parents=True, exist_ok=True)
 
@@ -265,7 +304,7 @@ def _site_filter(site: str) -> bool:
 
 
 def _maker(ev: dict) -> tuple:
-    return (ev["ns"], tuple(ev["S"]), ev["lang"], ev["tpl"], ev["pps"], ev["support"])
+    return (ev["ns"], tuple(ev["S"]), ev["lang"], ev.get("std"), ev["tpl"], ev["pps"], ev["support"])
 
 
 def _make_pps(name: str) -> typing.Optional[list]:
@@ -309,18 +348,19 @@ def run_event(ev: dict, lay: Layout) -> EvResult:
         parsed = pydsdl.read_namespace(str(root_dir), lookups, allow_unregulated_fixed_port_id=True)
         by_name = {str(t): t for t in parsed}
         sel = [by_name[n] for n in ev["S"]]
-        lctx = _SHARED.get(ev["lang"]) if ev["reuse"] else None
+        lkey = ev["lang"] + ":" + (ev.get("std") or "")
+        lctx = _SHARED.get(lkey) if ev["reuse"] else None
         if lctx is None:
-            lctx = gen.language_context(ev["lang"])
-        _SHARED[ev["lang"]] = lctx
+            lctx = gen.language_context(ev["lang"], {"std": ev["std"]} if ev.get("std") else None)
+        _SHARED[lkey] = lctx
         with permset.scheduled(sched):
             if ev["reuse_gen"]:
                 g, sg, ns = held["g"], held["sg"], held["ns"]
             else:
                 ns = build_namespace_tree(sel, str(root_dir), str(out), lctx)
                 kwargs: typing.Dict[str, typing.Any] = {"post_processors": _make_pps(ev["pps"])}
-                if ev["tpl"] == "user":
-                    kwargs["templates_dir"] = lay.tpl / ev["lang"]
+                if ev["tpl"] in ("user", "userx"):
+                    kwargs["templates_dir"] = lay.tpl / (ev["lang"] if ev["tpl"] == "user" else ev["lang"] + "_x")
                 if ev["support"]:
                     g, sg = create_default_generators(ns, **kwargs)  # both share the post-processor list (as the CLI does)
                 else:
@@ -760,6 +800,32 @@ def full_alphabet() -> typing.List[typing.Tuple[dict, bool]]:
                     for sub in closed_subsets(ns):
                         for pi in itertools.permutations(sub):
                             out.append((event(ns, pi, lang, tpl, pps), list(pi) == sorted(pi)))
+    # family F: every non-default C++ language standard flavour (built-in templates), siblings with same-named fields
+    for ns in ("same", "fan"):
+        for std in CPP_STDS:
+            for sub in closed_subsets(ns):
+                for pi in itertools.permutations(sub):
+                    out.append((event(ns, pi, "cpp", "builtin", "none", std=std), False))
+    # family X: user templates that request unique names through another language's ln.<lang>.* filter
+    for ns in ("fan", "same"):
+        for lang in LANG_LIST:
+            for sub in closed_subsets(ns):
+                for pi in itertools.permutations(sub):
+                    out.append((event(ns, pi, lang, "userx", "none"), False))
+    return out
+
+
+def cross_language_histories() -> typing.List[typing.Tuple[dict, dict]]:
+    """[an earlier run for target Y (built-in templates, or a userx template) ; a userx run for target X]"""
+    out = []
+    fan = sorted(NAMESPACES["fan"]["deps"])
+    for l1 in LANG_LIST:
+        for tpl in ("builtin", "userx"):
+            a = event("fan", fan, l1, tpl, "none")
+            for ns in ("fan", "same"):
+                for sub in (sorted(NAMESPACES[ns]["deps"]), [leaf(ns)]):
+                    for l2 in LANG_LIST:
+                        out.append((a, event(ns, sub, l2, "userx", "none")))
     return out
 
 
@@ -792,7 +858,7 @@ def generator_reuse_histories() -> typing.List[typing.Tuple[dict, dict]]:
     """[gen(flags1) ; the SAME generator object(s): generate_all(flags2)] - every ordered pair of flag combinations
     (the equal pair = plain repetition), with and without a SupportGenerator next to the DSDLCodeGenerator."""
     out = []
-    for ns in NAMESPACES:
+    for ns in NS_DEEP:
         names = sorted(NAMESPACES[ns]["deps"])
         for lang in LANG_LIST:
             for tpl in TPLS:
@@ -806,6 +872,9 @@ def generator_reuse_histories() -> typing.List[typing.Tuple[dict, dict]]:
 
 
 def _core1(ev: dict) -> bool:
+    if ev.get("std") or ev["tpl"] == "userx":  # all types of the namespace, in sorted and in reversed order
+        whole = len(ev["S"]) == len(NAMESPACES[ev["ns"]]["deps"]) and ev["S"] in (sorted(ev["S"]), sorted(ev["S"], reverse=True))
+        return whole and ev["ns"] == ("same" if ev.get("std") else "fan")
     return ev["ns"] == "fan" and ((ev["tpl"] == "user" and ev["pps"] == "limit") or (ev["tpl"] == "builtin" and ev["pps"] == "none"))
 
 
@@ -858,10 +927,11 @@ def run(ctx: Ctx) -> int:
     d1_space = 0
     for ev, sigma in full_alphabet():
         d1_space += 1
-        if ctx.thorough or _core1(ev) or ctx.in_slice("d1|" + ev_id(ev)):
+        added_later = ev["ns"] == "same" or ev.get("std") or ev["tpl"] == "userx"  # thinner slice: quick CPU budget
+        if ctx.thorough or _core1(ev) or ctx.in_slice("d1|" + ev_id(ev), 48 if added_later else 16):
             d1[ev_id(ev)] = (ev, sigma)
-    P2 = prefix_alphabet(list(NAMESPACES), ["none", "limit"])
-    L2 = last_alphabet(list(NAMESPACES), PPS)
+    P2 = prefix_alphabet(NS_DEEP, ["none", "limit"])
+    L2 = last_alphabet(NS_DEEP, PPS)
     deep: typing.Dict[str, typing.Tuple[typing.List[dict], typing.List[dict]]] = {}  # prefix id -> (prefix, last events)
     d2_space = 0
     for a in P2:
@@ -894,6 +964,10 @@ def run(ctx: Ctx) -> int:
             "depth 3 is explored over a reduced alphabet (namespaces twin_a/twin_b/fan, one language per history, "
             "pps=limit in the prefix, LanguageContext reuse pattern in {never, always, prefix only})"
         )
+    x_space = 0
+    for a, b in cross_language_histories():  # cheap (user templates): all of them in both tiers
+        x_space += 1
+        deep.setdefault("x|" + ev_id(a), ([a], []))[1].append(b)
     g_space = 0
     for a, b in generator_reuse_histories():
         g_space += 1
@@ -1041,10 +1115,11 @@ def run(ctx: Ctx) -> int:
         "last event was checked against fresh-process references (every history differs from the reference run in "
         "type set, order, schedule or prefix); distinct_outcomes = distinct output trees of last events",
         "bound_completed": (
-            f"depth 1: {by_depth[1]} histories = ({'all' if ctx.thorough else 'core+slice of'} {d1_space} events: 5 namespaces x "
-            f"every dependency-closed subset x every permutation x 3 languages x 2 template sets x 3 pps) + nested-namespace "
+            f"depth 1: {by_depth[1]} histories = ({'all' if ctx.thorough else 'core+slice of'} {d1_space} events: {len(NAMESPACES)} namespaces x "
+            f"every dependency-closed subset x every permutation x 3 languages x 2 template sets x 3 pps, + C++ standards "
+            f"{CPP_STDS} and cross-language unique-name templates on 2 namespaces) + nested-namespace "
             f"schedules with <={'2' if ctx.thorough else '1'} deviation(s) on sorted order + {extra1} option events; "
-            f"depth 2: {by_depth[2] - same_generator}/{d2_space}; generator object used twice with "
+            f"depth 2: {by_depth[2] - same_generator}/{d2_space + x_space} (incl. {x_space} cross-language unique-name histories); generator object used twice with "
             f"(omit, auditing) flag transitions: {same_generator}/{g_space}; depth 3: {by_depth[3]}/{d3_space}; "
             f"{len(need)} fresh-process references"
         ),
